@@ -6,7 +6,7 @@
 
 use crate::common::*;
 use crate::model::{self, KsModel};
-use crate::{ensure, ensure_eq_bytes};
+use crate::{ensure, ensure_eq_bytes, pick};
 use vp_base::obj::*;
 use vp_base::tape::{self, Tape};
 
@@ -37,7 +37,7 @@ fn block_modes(ctx: &Ctx, t: &mut Tape<'_>, r: &mut Report) -> CheckResult {
     let mode = t.pick(&Mode::ALL);
     let dir = t.pick(&[Direction::Enc, Direction::Dec]);
     // CFB's IvState needs D, so pick a cipher with both directions for it
-    let suite = ctx.pick_suite(t, |s| s.info.has_dec || !(mode.needs_dec(dir) || mode == Mode::Cfb));
+    let suite = pick!(ctx, t, r, |s| s.has_dec || !(mode.needs_dec(dir) || mode == Mode::Cfb));
     let f = suite.block_mode(mode, dir).unwrap();
     let unit = f.unit();
     let bs = suite.info.bs;
@@ -102,7 +102,7 @@ fn block_modes(ctx: &Ctx, t: &mut Tape<'_>, r: &mut Report) -> CheckResult {
 }
 
 fn stream_cores(ctx: &Ctx, t: &mut Tape<'_>, r: &mut Report) -> CheckResult {
-    let suite = ctx.pick_suite(t, |_| true);
+    let suite = pick!(ctx, t, r, |_| true);
     let f = &suite.streams[t.idx(suite.streams.len())];
     let kind = f.kind();
     // BelT's IvState needs D
@@ -157,7 +157,7 @@ fn stream_cores(ctx: &Ctx, t: &mut Tape<'_>, r: &mut Report) -> CheckResult {
 }
 
 fn wrappers(ctx: &Ctx, t: &mut Tape<'_>, r: &mut Report) -> CheckResult {
-    let suite = ctx.pick_suite(t, |_| true);
+    let suite = pick!(ctx, t, r, |_| true);
     let f = &suite.streams[t.idx(suite.streams.len())];
     let kind = f.kind();
     if kind == StreamKind::Belt && !suite.info.has_dec {
@@ -192,7 +192,7 @@ fn wrappers(ctx: &Ctx, t: &mut Tape<'_>, r: &mut Report) -> CheckResult {
 
 fn buffered(ctx: &Ctx, t: &mut Tape<'_>, r: &mut Report) -> CheckResult {
     let dir = t.pick(&[Direction::Enc, Direction::Dec]);
-    let suite = ctx.pick_suite(t, |_| true);
+    let suite = pick!(ctx, t, r, |_| true);
     let f = suite.buf(dir).unwrap();
     let bs = suite.info.bs;
     let key = gen_key(t, suite);
